@@ -87,7 +87,7 @@ TNext ==
                           order == IF new \in Perms(Dirty) THEN new ELSE CHOOSE o \in Perms(Dirty) : TRUE
                       IN FlushWith(order)
               /\ Flag(e, Drift(e))
-         [] e.e = "prigc" -> PriGC /\ Flag(e, Drift(e))
+         [] e.e = "prigc" -> PriGC(e.lowUse) /\ Flag(e, Drift(e))
          [] e.e = "idxgc" -> IdxGC(e.scanFree) /\ Flag(e, Drift(e))
          [] OTHER -> UNCHANGED vars
   /\ Consumed(l)
